@@ -187,7 +187,7 @@ func C03(c *Ctx, r *report.Run) error {
 						if str(rm, "method") == tc.Verb && normTemplate(str(rm, "path")) == normTemplate(tc.Template) {
 							o := routeObs{Verb: str(rm, "method"), Template: str(rm, "path"), Place: map[string]string{}, Known: true}
 							for _, v := range model.PathTemplateVars(o.Template) {
-								o.Place[spec.JSONName(v)] = "path"
+								o.Place[spec.RequestFieldJSONName(u.Spec, k.svc, k.rpc, v)] = "path"
 							}
 							obs["ts-server"] = o
 						}
@@ -219,7 +219,7 @@ func C03(c *Ctx, r *report.Run) error {
 				for _, prm := range op.Params {
 					switch prm.In {
 					case "path":
-						o.Place[spec.JSONName(prm.Name)] = "path"
+						o.Place[spec.RequestFieldJSONName(u.Spec, k.svc, k.rpc, prm.Name)] = "path"
 					case "query":
 						o.Place["?"+prm.Name] = "query:" + prm.Name
 					}
